@@ -29,6 +29,7 @@ STRENGTHENED = {
     "C08-4": "C08 generator: through the solver - facts with fresh variables inside compound terms, aliased through clause heads; cycle check through compound terms",
     "C15-4": "C15 generator: append with the tail variables bound (to [], to a list, through a chain ending in [])",
     "C09-4": "C09 relation: a variable that occurs once replaced by $_ changes nothing but that variable's own binding (instance pairs)",
+    "C13-3": "C13 relation: two function terms unify exactly when their values are the same constant",
     "C16-3": "C16 oracle: with a given output argument append succeeds exactly when a reference unifier unifies it with the concatenation",
     "C19-5": "C19 term generator: floats below 1e-4; relation Display-then-parse for floats with a fractional part (new op show-parse)",
     "C21-5": "C21 generator: non-ASCII rule texts in every legal layout (load = one by one is then decided on the implementation)",
